@@ -17,11 +17,13 @@
 EXTENDS Integers, Sequences, FiniteSets, TLC, Json
 
 CONSTANTS MaxN,        \* maximal number of nodes of a tree
-          Rich         \* TRUE: full status set on every node; FALSE: reduced statuses on non-final nodes
+          Rich,        \* TRUE: full status set on every node; FALSE: reduced statuses on non-final nodes
+          Small        \* TRUE: one collection, one identifier (used to reach deeper trees within the quick budget)
 
-Kinds == {"POST users", "GET user", "DELETE user", "GET user posts", "POST user posts",
-          "DELETE order", "GET order"}
-Ids == {1, 11}                        \* "1" is a proper prefix of "11"
+AllKinds == {"POST users", "GET user", "DELETE user", "GET user posts", "POST user posts",
+             "DELETE order", "GET order"}
+Kinds == IF Small THEN {"POST users", "GET user", "DELETE user", "GET user posts"} ELSE AllKinds
+Ids == IF Small THEN {1} ELSE {1, 11}    \* "1" is a proper prefix of "11"
 HasId(k) == k # "POST users"
 Method(k) == CASE k \in {"POST users", "POST user posts"} -> "POST"
                [] k \in {"DELETE user", "DELETE order"}   -> "DELETE"
